@@ -434,7 +434,9 @@ def _transform(op, x, y, s, names, n, z=None):
     if op in ("copy", "deepcopy"):
         return getattr(x, op)(), list(names)
     if op == "rbind":
-        return x.rbind(y), None
+        # the column order of the result is defined: the receiver's columns, then the other frame's new ones in their order
+        ynames = list(dict.keys(y))
+        return x.rbind(y), list(names) + [c for c in ynames if c not in names]
     if op in ("cbind", "update"):
         if op == "cbind" and z is not None and a % 2:
             # several frames bound at once, now and then onto a receiver without columns: the bound frames then have to
